@@ -331,6 +331,47 @@ impl<'tcx> Cx<'tcx> {
                 }
             }
         }
+        // `&Enum` for a field-less enum (e.g. the promoted right-hand side of `label == Label::Keep`)
+        if let Some(inner) = inner {
+            if let ty::Adt(adt, _) = inner.kind() {
+                if adt.is_enum() && adt.variants().iter().all(|v| v.fields.is_empty()) {
+                    if let Ok(ConstValue::Scalar(mir::interpret::Scalar::Ptr(ptr, _))) =
+                        c.const_.eval(tcx, env, c.span)
+                    {
+                        let (prov, off) = ptr.prov_and_relative_offset();
+                        if let Some(mir::interpret::GlobalAlloc::Memory(a)) =
+                            tcx.try_get_global_alloc(prov.alloc_id())
+                        {
+                            let a = a.inner();
+                            let size = tcx
+                                .layout_of(env.as_query_input(inner))
+                                .map(|l| l.size.bytes_usize())
+                                .unwrap_or(0);
+                            let start = off.bytes_usize();
+                            if size > 0 && size <= 8 && start + size <= a.len() {
+                                let bytes = a
+                                    .inspect_with_uninit_and_ptr_outside_interpreter(start..start + size);
+                                let mut v: u128 = 0;
+                                for (i, b) in bytes.iter().enumerate() {
+                                    v |= (*b as u128) << (8 * i);
+                                }
+                                for (idx, d) in adt.discriminants(tcx) {
+                                    if d.val == v {
+                                        return format!(
+                                            "{{\"const\":{{\"ty\":{},\"enum_ref\":{{\"adt\":{},\"variant\":{}}}{}}}}}",
+                                            esc(&tys),
+                                            esc(&self.def(adt.did())),
+                                            esc(adt.variant(idx).name.as_str()),
+                                            named_s
+                                        );
+                                    }
+                                }
+                            }
+                        }
+                    }
+                }
+            }
+        }
         // `&&str` (e.g. a promoted reference to a named string constant, as format arguments use)
         if let Some(inner) = inner {
             if let ty::Ref(_, inner2, _) = inner.kind() {
